@@ -14,13 +14,14 @@ import (
 
 // TarEntry is one archive entry in declarative form.
 type TarEntry struct {
-	Name  string            `json:"name"`
-	Type  string            `json:"type"` // file | dir | link | hard | fifo | char | block | xglobal | xheader-raw
-	Link  string            `json:"link,omitempty"`
-	Mode  int64             `json:"mode"`
-	Mtime int64             `json:"mtime"` // unix seconds
-	Body  string            `json:"body,omitempty"`
-	PAX   map[string]string `json:"pax,omitempty"`
+	Name    string            `json:"name"`
+	Type    string            `json:"type"` // file | dir | link | hard | fifo | char | block | xglobal | xheader-raw
+	Link    string            `json:"link,omitempty"`
+	Mode    int64             `json:"mode"`
+	Mtime   int64             `json:"mtime"`              // unix seconds
+	MtimeNs int64             `json:"mtime_ns,omitempty"` // fraction of a second; representable in PAX only
+	Body    string            `json:"body,omitempty"`
+	PAX     map[string]string `json:"pax,omitempty"`
 }
 
 func (e TarEntry) String() string {
@@ -83,7 +84,7 @@ func BuildTar(entries []TarEntry, format string) ([]byte, error) {
 			Typeflag: typeflag(e.Type),
 			Linkname: e.Link,
 			Mode:     e.Mode,
-			ModTime:  time.Unix(e.Mtime, 0),
+			ModTime:  time.Unix(e.Mtime, e.MtimeNs),
 		}
 		switch format {
 		case "ustar":
